@@ -88,6 +88,65 @@ Proof.
     + eapply CFSkip; eauto.
 Qed.
 
+(* per-field settings: positions done in pass 1 carry values of the right shape; pass 2 completes the rest *)
+Definition slot_conf (otype : string) (kn : string * list fnode) (slot : option (option pyval)) : Prop :=
+  match slot with
+  | None => True
+  | Some o => exists node rest, snd kn = node :: rest /\
+      match o with
+      | None => get_field_definition sch otype (fn_name node) = None
+      | Some v => exists fd, get_field_definition sch otype (fn_name node) = Some fd /\ conf_ty (fd_type fd) (snd kn) v
+      end
+  end.
+
+Lemma mixed_pass1_conf isc rf otype value opath :
+  rf_ok rf -> forall sub s slots s',
+  mixed_pass1 isc (fun k ns => rf otype value opath k ns) sub s = (OVal slots, s') ->
+  Forall2 (slot_conf otype) sub slots.
+Proof.
+  intros Hrf. induction sub as [|[k ns] rest IH]; intros s slots s'; cbn [mixed_pass1].
+  - intros H; inversion H. constructor.
+  - destruct (isc k ns).
+    + destruct (mixed_pass1 isc _ rest s) as [[sl|l|e] s1] eqn:E; try discriminate.
+      intros H; inversion H; subst. constructor; [exact I|eapply IH; eauto].
+    + destruct (rf otype value opath k ns s) as [r s1] eqn:Er. destruct r as [o|l|e]; try discriminate.
+      destruct (mixed_pass1 isc _ rest s1) as [[sl|l|e] s2] eqn:E; try discriminate.
+      intros H; inversion H; subst. constructor; [|eapply IH; eauto].
+      destruct (Hrf _ _ _ _ _ _ _ _ Er) as (node & ns' & -> & Ho). exists node, ns'. split; [reflexivity|exact Ho].
+Qed.
+
+Lemma mixed_pass2_conf rf otype value opath :
+  rf_ok rf -> forall sub slots, Forall2 (slot_conf otype) sub slots -> forall s kv s',
+  mixed_pass2 (fun k ns => rf otype value opath k ns) sub slots s = (OVal kv, s') ->
+  conf_fields otype sub kv.
+Proof.
+  intros Hrf sub slots HF. induction HF as [|[k ns] slot rest srest Hs HF IH]; intros s kv s'; cbn [mixed_pass2].
+  - intros H; inversion H. constructor.
+  - destruct slot as [o|].
+    + destruct (mixed_pass2 _ rest srest s) as [rs s2] eqn:Ers. destruct rs as [kv'|l'|e']; try discriminate.
+      destruct Hs as (node & ns' & Hns & Ho). cbn [snd] in Hns. subst ns.
+      intros H; inversion H; subst. destruct o as [v|].
+      * destruct Ho as (fd & Hfd & Hc). eapply CFCons; eauto.
+      * eapply CFSkip; eauto.
+    + destruct (rf otype value opath k ns s) as [r s1] eqn:Er.
+      destruct (mixed_pass2 _ rest srest s1) as [rs s2] eqn:Ers.
+      destruct r as [[v|]|l|e]; destruct rs as [kv'|l'|e']; try discriminate;
+        destruct (Hrf _ _ _ _ _ _ _ _ Er) as (node & ns' & -> & Ho);
+        intros H; inversion H; subst.
+      * destruct Ho as (fd & Hfd & Hc). eapply CFCons; eauto.
+      * eapply CFSkip; eauto.
+Qed.
+
+Lemma exec_fields_mixed_conf isc rf otype value opath :
+  rf_ok rf -> forall sub s kv s',
+  exec_fields_mixed isc (fun k ns => rf otype value opath k ns) sub s = (OVal kv, s') ->
+  conf_fields otype sub kv.
+Proof.
+  intros Hrf sub s kv s'. unfold exec_fields_mixed.
+  destruct (mixed_pass1 isc _ sub s) as [[slots|l|e] s1] eqn:E1; try discriminate.
+  intros H. eapply mixed_pass2_conf; eauto. eapply mixed_pass1_conf; eauto.
+Qed.
+
 Lemma exec_sub_conf rf nodes n rt value opath s r s' :
   rf_ok rf ->
   (rt = n \/ mem_str rt (possible_types sch n) = true) ->
@@ -97,11 +156,8 @@ Lemma exec_sub_conf rf nodes n rt value opath s r s' :
 Proof.
   intros Hrf Hrt Hobj. unfold exec_sub.
   destruct (collect_subfields sch doc vs COLLECT_FUEL rt nodes [] []) as [sub|] eqn:Ec; [|discriminate].
-  destruct (parent_concurrently cfg).
-  - destruct (exec_fields_conc _ sub s) as [[kv|l|e] s1] eqn:E; try discriminate.
-    intros H; inversion H; subst. eapply CObject; eauto. eapply exec_fields_conc_conf; eauto.
-  - destruct (exec_fields_seq _ sub s) as [[kv|l|e] s1] eqn:E; try discriminate.
-    intros H; inversion H; subst. eapply CObject; eauto. eapply exec_fields_seq_conf; eauto.
+  destruct (exec_fields_mixed _ _ sub s) as [[kv|l|e] s1] eqn:E; try discriminate.
+  intros H; inversion H; subst. eapply CObject; eauto. eapply exec_fields_mixed_conf; eauto.
 Qed.
 
 Lemma resolve_runtime_type_ok n t nodes rt :
@@ -257,7 +313,7 @@ Proof.
   destruct (collect_fields sch doc vs COLLECT_FUEL rt (o_sels op) [] []) as [[fs v]|] eqn:Ec; [|discriminate].
   pose proof (resolve_field_ok EXEC_FUEL) as Hrf.
   assert (Hboth : forall run,
-            (run = exec_fields_conc (fun k ns => resolve_field sch doc vs U cfg EXEC_FUEL rt root [] k ns) fs \/
+            (run = exec_fields_mixed (field_conc cfg rt) (fun k ns => resolve_field sch doc vs U cfg EXEC_FUEL rt root [] k ns) fs \/
              run = exec_fields_seq (fun k ns => resolve_field sch doc vs U cfg EXEC_FUEL rt root [] k ns) fs) ->
             match run st0 with
             | (OVal kv, s) => OVal {| r_data := PDict kv; r_errors := s_errors s; r_log := s_log s |}
@@ -273,11 +329,11 @@ Proof.
     - intros H; inversion H; subst r. right. exists rt, fs, v, kv. cbn [r_data].
       split; [reflexivity|]. split; [reflexivity|]. split; [reflexivity|].
       destruct Hrun as [-> | ->].
-      + eapply exec_fields_conc_conf; eauto.
+      + eapply exec_fields_mixed_conf; eauto.
       + eapply exec_fields_seq_conf; eauto.
     - intros H; inversion H; subst r. now left. }
   assert (Hfin : forall run,
-            (run = exec_fields_conc (fun k ns => resolve_field sch doc vs U cfg EXEC_FUEL rt root [] k ns) fs \/
+            (run = exec_fields_mixed (field_conc cfg rt) (fun k ns => resolve_field sch doc vs U cfg EXEC_FUEL rt root [] k ns) fs \/
              run = exec_fields_seq (fun k ns => resolve_field sch doc vs U cfg EXEC_FUEL rt root [] k ns) fs) ->
             match run st0 with
             | (OVal kv, s) => OVal {| r_data := PDict kv; r_errors := s_errors s; r_log := s_log s |}
@@ -293,7 +349,7 @@ Proof.
   { intros run Hrun H.
     destruct (Hboth run Hrun H) as [Hl | (rt0 & fs0 & v0 & kv & E1 & E2 & Hd & Hc)]; [now left|].
     right. inversion E1; inversion E2; subst. exists rt0, fs0, v0, kv. auto. }
-  destruct (o_kind op); try destruct (parent_concurrently cfg); apply Hfin; auto.
+  destruct (o_kind op); apply Hfin; auto.
 Qed.
 
 End Conform.
